@@ -1132,3 +1132,41 @@ Proof.
   match goal with |- context [MAXMSG <? ?x] => destruct (MAXMSG <? x) end; cbn [bind]; eexists; (split; [reflexivity|]);
     cbn [r_got r_frame r_payload buf_reset b_data]; repeat split; reflexivity.
 Qed.
+
+(* a complete frame that decrypts under the current nonce is consumed in the same call: the first
+   min(remaining, |p|) bytes of its plaintext are handed out, the rest stays buffered, the nonce
+   advances by one and the transport is not touched *)
+Lemma c13_good_frame_delivered dec r n cap L p :
+  buf_len (r_payload r) = 0 -> frame_complete (r_frame r) = Ok (Some L) ->
+  length (firstn L (skipn LENF (buf_as_slice (r_frame r)))) <= MAXMSG ->
+  dec (length (r_got r)) (firstn L (skipn LENF (buf_as_slice (r_frame r)))) = Some p ->
+  length p <= buf_size (r_payload r) ->
+  exists r', poll_read dec r n cap = Ok (r', n, PReady (firstn (Nat.min cap (length p)) p)) /\
+    length (r_got r') = S (length (r_got r)) /\
+    b_data (r_payload r') = skipn (Nat.min cap (length p)) p.
+Proof.
+  intros Hp Hfc Hmax Hdec Hcap. pose proof (frame_complete_some _ _ Hfc) as Hle.
+  unfold poll_read, poll_read_payload. rewrite Hp. change (0 <? 0) with false. cbv iota.
+  unfold poll_read_frame. cbn [read_frame]. rewrite Hfc. cbn [bind].
+  destruct (Nat.ltb_spec (buf_len (r_frame r)) (LENF + L)) as [Hlt|_]; [lia|].
+  destruct (Nat.ltb_spec MAXMSG (length (firstn L (skipn LENF (buf_as_slice (r_frame r))))))
+    as [Hgt|_]; [lia|].
+  rewrite Hdec.
+  assert (Hc0 : buf_capacity (buf_reset (r_payload r)) = buf_size (r_payload r)).
+  { unfold buf_capacity, buf_reset, buf_size. cbn [b_post]. rewrite !app_length. lia. }
+  destruct (Nat.ltb_spec (buf_capacity (buf_reset (r_payload r))) (length p)) as [Hgt|_]; [lia|].
+  unfold buf_write_cap. cbn [Nat.add].
+  destruct (Nat.leb_spec (length p) (buf_capacity (buf_reset (r_payload r)))) as [_|Hgt]; [|lia].
+  cbn [bind]. unfold buf_take at 1.
+  destruct (Nat.leb_spec (LENF + L) (buf_len (r_frame r))) as [_|Hgt]; [|lia].
+  cbn [bind]. unfold buf_extend, buf_capacity at 1. cbn [b_post b_pre b_data firstn app].
+  match goal with |- context [length p <=? ?x] =>
+    destruct (Nat.leb_spec (length p) x) as [_|Hgt];
+      [|rewrite app_length in Hgt; lia] end.
+  cbn [bind r_payload r_frame r_got]. unfold buf_len, buf_as_slice. cbn [b_data buf_reset app].
+  rewrite firstn_app, Nat.sub_diag, firstn_all. cbn [firstn]. rewrite app_nil_r.
+  unfold buf_take, buf_len. cbn [b_data b_pre b_post].
+  destruct (Nat.leb_spec (Nat.min cap (length p)) (length p)) as [_|Hgt]; [|lia].
+  cbn [bind]. eexists. split; [reflexivity|]. cbn [r_got r_payload b_data].
+  split; [rewrite app_length; cbn [length]; lia|reflexivity].
+Qed.
